@@ -35,3 +35,14 @@ Theorem C01_domain_spec :
 Proof. exact @poly_spec. Qed.
 Print Assumptions C01_domain_spec.
 
+Require Import PyDict PyLoop WrapGen WrapGenCompose.
+(* ---- T1 tie: PolyhedralIoContract.compose_tactics / compose of polyhedral_iocontract.py as translated ON THIS RUN
+   (gen/WrapGen.v: default tactic order, Var conversion of vars_to_keep, dynamic dispatch of super().compose into the
+   override) ARE the model functions the theorems above speak about. *)
+Theorem C01_code_compose_tactics : forall (O : oracle) (c1 c2 : pcontract O) (keep : option (list string)) (sp : bool) (od : option (list nat)),
+  @PolyhedralIoContract_compose_tactics (poly_domain O) c1 c2 keep sp od = poly_compose_tactics O c1 c2 keep sp od.
+Proof. exact wrap_compose_tactics_eq. Qed.
+Theorem C01_code_compose : forall (O : oracle) (c1 c2 : pcontract O) (keep : option (list string)) (sp : bool),
+  @PolyhedralIoContract_compose (poly_domain O) c1 c2 keep sp = bind (poly_compose_tactics O c1 c2 keep sp None) (fun p => ret (fst p)).
+Proof. exact wrap_compose_eq. Qed.
+Print Assumptions C01_code_compose_tactics. Print Assumptions C01_code_compose.
